@@ -683,6 +683,7 @@ func run(c *rt.Ctx) {
 	c.Par(len(cases), func(i int, w *rt.W) { evalCase(c, w, cases[i], i) })
 	importLeg(c)
 	thirdParty(c)
+	multiFile(c)
 	c.Finish("plans of the real planners (create / drop / modify / un-modify) over a two-table schema carrying hostile strings (quotes, semicolons, comment markers, backslashes, newlines, dollar tags, BEGIN/END/DELIMITER/GO words, non-ASCII …) as table/column/index/FK/check names, defaults, comments, check and predicate literals and enum values — the full single-feature matrix plus seeded compound cases — × formatters {atlas, golang-migrate, goose, flyway, liquibase, dbmate} × indent × custom delimiters (atlas format); written into a real directory, read back through the matching sqltool/LocalDir reader with migrate.FileStmtDecls(dialect driver); statements must equal the planned Cmds (count, order, text) and collected comments must be comments; `atlas migrate import` must preserve the source reader's statement sequence. Failures are shrunk to a minimal feature set; key = dialect|reader kind|placement kind:feature. distinct = distinct written files with ≥ 1 hostile feature",
 		map[string]any{"hostile_strings": len(hostile), "placements": len(placements)})
 }
